@@ -2,8 +2,6 @@
 From PegV Require Import Base.Tac Base.ListX Spec.Syntax Spec.Peg Proofs.PegRel Model.Calls Generated.PegPeg Reader.Base Reader.Lex Reader.Chars.
 Local Open Scope Z_scope.
 
-Definition kshows (ks : list cchar) : list rune := flat_map kshow ks.
-Definition khead (k : cchar) : rune := match kshow k with c :: _ => c | [] => 0 end.
 Lemma kshow_head k : exists m, kshow k = khead k :: m.
 Proof. destruct k; cbn; eauto. Qed.
 
@@ -28,9 +26,8 @@ Hypothesis Hitem : forall a rest p t, okb a rest = true -> At p (show a ++ rest)
 Hypothesis Hsep : forall p t, C ea p p sep t t.
 Hypothesis Hclose : forall p after, At p (close ++ after) -> exists p' f, ok eg p p' f.
 
-Definition shows (l : list A) : list rune := flat_map show l.
-Fixpoint items_ok (l : list A) (after : list rune) : bool :=
-  match l with [] => true | a :: l' => okb a (shows l' ++ after) && items_ok l' after end.
+Notation shows := (shows A show).
+Notation items_ok := (items_ok A show okb).
 
 Lemma items_star l : forall after p t, items_ok l (close ++ after) = true -> At p (shows l ++ close ++ after) ->
   exists t', C (EStar (ESeq [ENot eg; ei; ea])) p (p + length (shows l))%nat (flat_map (fun a => cl a ++ sep) l) t t'.
@@ -59,17 +56,6 @@ Lemma items_none p after : At p (close ++ after) -> ko (ESeq [ENot eg; ei]) p.
 Proof. intros Hat. destruct (Hclose _ _ Hat) as (p' & f & Ho). apply ko_seq. apply kos_head. eapply ko_not. exact Ho. Qed.
 
 End Star.
-
-(** * literals *)
-Definition lit_item_ok (q : rune) (k : cchar) (rest : list rune) : bool :=
-  kvalid k && negb (khead k =? q) && kfollow k rest.
-Definition chars_ok (q : rune) : list cchar -> list rune -> bool := items_ok cchar kshow (lit_item_ok q).
-Definition lit_calls (dbl : bool) (ks : list cchar) : list call :=
-  match ks with
-  | [] => [(CAddNil, [])]
-  | k :: ks' => kcall dbl k :: flat_map (fun k => [kcall dbl k; (CAddSequence, [])]) ks'
-  end.
-Definition quote_of (dbl : bool) : rune := if dbl then 34 else 39.
 
 Section Lit.
 Variable buf : list rune.
@@ -139,37 +125,8 @@ Qed.
 
 End Lit.
 
-(** * classes *)
-Inductive citem := IChar (k : cchar) | IRange (lo hi : cchar).
-Definition ishow (i : citem) : list rune :=
-  match i with IChar k => kshow k | IRange lo hi => kshow lo ++ 45 :: kshow hi end.
-Definition ishows (l : list citem) : list rune := flat_map ishow l.
-Definition ihead (i : citem) : rune := match i with IChar k => khead k | IRange lo _ => khead lo end.
-Definition icalls (dbl : bool) (i : citem) : list call :=
-  match i with
-  | IChar k => [kcall dbl k]
-  | IRange lo hi => [kcall false lo; kcall false hi; (if dbl then CAddDoubleRange else CAddRange, [])]
-  end.
-Definition head_is (c : rune) (s : list rune) : bool := match s with x :: _ => x =? c | [] => false end.
 (** an item, given what follows it: not the closing bracket first, digit runs end, a lone character is not
     followed by '-' *)
-Definition item_okb (i : citem) (rest : list rune) : bool :=
-  match i with
-  | IChar k => kvalid k && negb (khead k =? 93) && kfollow k rest && negb (head_is 45 rest)
-  | IRange lo hi => kvalid lo && negb (khead lo =? 93) && kfollow lo (45 :: kshow hi ++ rest) && kvalid hi && kfollow hi rest
-  end.
-Definition citems_ok : list citem -> list rune -> bool := items_ok citem ishow item_okb.
-Definition chain_calls (dbl : bool) (l : list citem) : list call :=
-  match l with [] => [] | i :: l' => icalls dbl i ++ flat_map (fun i => icalls dbl i ++ [(CAddAlternate, [])]) l' end.
-Definition class_calls (dbl neg : bool) (l : list citem) : list call :=
-  match l with
-  | [] => [(CAddNil, []); (CAddPeekNot, [])]
-  | _ => chain_calls dbl l ++ (if neg then [(CAddPeekNot, []); (CAddDot, []); (CAddSequence, [])] else [])
-  end.
-Definition copen (dbl : bool) : list rune := if dbl then [91; 91] else [91].
-Definition cclose (dbl : bool) : list rune := if dbl then [93; 93] else [93].
-Definition cguard (dbl : bool) : expr := if dbl then ESeq [EChar 93; EChar 93] else EChar 93.
-
 Section Class.
 Variable buf : list rune.
 Variable penv : nat -> nat -> bool.
@@ -250,14 +207,6 @@ Proof.
   intros Hat. destruct (guard_close dbl _ _ Hat) as (p' & f & Ho).
   destruct dbl; cbn [cguard] in *; ko_into_rule; apply ko_seq; apply kos_head; eapply ko_not; exact Ho.
 Qed.
-
-Definition class_wf (dbl neg : bool) (l : list citem) : bool :=
-  match l with
-  | [] => negb neg
-  | i :: _ => neg || (negb (ihead i =? 94) && (dbl || negb (ihead i =? 91)))
-  end.
-Definition class_len (dbl neg : bool) (l : list citem) : nat :=
-  (length (copen dbl) + (if neg then 1 else 0) + length (ishows l) + length (cclose dbl))%nat.
 
 Theorem class_ok dbl neg l s rest p t :
   class_wf dbl neg l = true -> citems_ok l (cclose dbl ++ s ++ rest) = true -> lay s -> stop rest ->
